@@ -113,6 +113,20 @@ def _concurrent_case(case):
                 return 0
             def on_commitment_response(self, transaction_uid, success, failure):
                 world.sim.sleep(rnd.choice([0.0, 0.2]))
+
+            def on_commitment_request(self, remote_ae, uids):
+                # slow enough for the requests of several associations to overlap
+                world.sim.sleep(rnd.choice([0.05, 0.3, 0.6]))
+                return {'aet': 'DEST', 'address': DEST[0], 'port': DEST[1]}, list(uids), []
+
+        def dest_on_message(peer, m):
+            f = m['fields']
+            if f.get(0x0100) == 0x0100:
+                peer.send_message(m['pcid'], {0x0002: f.get(0x0002), 0x0100: 0x8100,
+                                              0x0120: f.get(0x0110, 0), 0x0800: 0x0101, 0x0900: 0,
+                                              0x1000: f.get(0x1000), 0x1002: f.get(0x1002)})
+        world.serve_peer(DEST, lambda sock: peers.ScriptedAcceptor(world.sim, sock,
+                                                                   on_message=dest_on_message))
         # the peers differ in transfer syntax and in what a context id stands for: the same id
         # names different SOP classes / syntaxes in associations that are alive together
         TSS = [(rc.IMPLICIT_LE, True, True), (rc.EXPLICIT_LE, False, True),
@@ -129,7 +143,8 @@ def _concurrent_case(case):
         world.serve_ae(srv, ADDR)
         plans = []
         for i in range(case['npeers']):
-            plans.append(dict(kind=rnd.choice(['find', 'find', 'store', 'echo', 'n_event_report']),
+            plans.append(dict(kind=rnd.choice(['find', 'find', 'store', 'echo', 'n_event_report',
+                                               'n_action', 'n_action']),
                               mid=rnd.choice(MIDS + [rnd.randrange(65536)]),
                               sop=rnd.choice([FIND, SFIND]), k=rnd.randint(1, 3),
                               pcid=rnd.choice([1, 3]), inst='1.2.3.%d.%d' % (i, rnd.randrange(9999)),
@@ -163,6 +178,17 @@ def _concurrent_case(case):
                                                    0x0110: pl['mid'], 0x0700: 0, 0x0800: 1,
                                                    0x1000: pl['inst']}, _enc(d))
                     want = 1
+                elif pl['kind'] == 'n_action':
+                    d = pydicom.Dataset()
+                    d.TransactionUID = '1.2.3.777.%d' % i
+                    it = pydicom.Dataset()
+                    it.ReferencedSOPClassUID = CT
+                    it.ReferencedSOPInstanceUID = '1.2.3.8.%d' % i
+                    d.ReferencedSOPSequence = pydicom.Sequence([it])
+                    peer.send_message(pl['pcid'], {0x0003: COMMIT, 0x0100: 0x0130,
+                                                   0x0110: pl['mid'], 0x0800: 1,
+                                                   0x1001: COMMIT_INST, 0x1008: 1}, _enc(d))
+                    want = 1
                 elif pl['kind'] == 'n_event_report':
                     d = pydicom.Dataset()
                     d.TransactionUID = '1.2.3.778.%d' % i
@@ -187,7 +213,7 @@ def _concurrent_case(case):
                 if not peer.eof and not peer.reset:
                     peer.release()
             sop_for = {'find': pl['sop'], 'store': pl['store_sop'], 'echo': rc.VERIFICATION,
-                       'n_event_report': COMMIT}[pl['kind']]
+                       'n_event_report': COMMIT, 'n_action': COMMIT}[pl['kind']]
             ctxs = ((pl['pcid'], sop_for, (pl['ts'][0],)),)
             peer = peers.ScriptedRequestor(world.sim, world.net, ADDR, ctxs, script=script)
             world.spawn(peer.run, 'scu%d' % i, role='user')
@@ -211,7 +237,7 @@ def _concurrent_case(case):
                 v('request-not-answered', 'peer %d (%s): %d of %r responses' % (
                     i, pl['kind'], len(pl['got']), pl.get('want')))
             sop_for = {'find': pl['sop'], 'store': pl['store_sop'], 'echo': rc.VERIFICATION,
-                       'n_event_report': COMMIT}[pl['kind']]
+                       'n_event_report': COMMIT, 'n_action': COMMIT}[pl['kind']]
             for j, m in enumerate(pl['got']):
                 f = m['fields']
                 if pl['kind'] == 'find' and j < pl['k']:
